@@ -77,6 +77,9 @@ func constToVal(c *FuncCtx, cv constant.Value, t types.Type) *Val {
 	return nil
 }
 
+// floatInf is larger than every finite float64.
+var floatInf = "1" + strings.Repeat("0", 310) + ".0"
+
 func realLit(f float64) string {
 	s := strconv.FormatFloat(f, 'f', -1, 64)
 	if !strings.Contains(s, ".") {
@@ -513,6 +516,17 @@ func (c *FuncCtx) binop(st *State, op token.Token, l, r *Val, pos token.Pos, res
 			}
 			return &Val{T: tBool, S: t, Sort: "Bool"}
 		}
+		if l.NaN != "" || r.NaN != "" {
+			// every ordered comparison with a NaN is false
+			nn := tTrue
+			if l.NaN != "" {
+				nn = mkAnd(nn, mkNot(l.NaN))
+			}
+			if r.NaN != "" {
+				nn = mkAnd(nn, mkNot(r.NaN))
+			}
+			return &Val{T: tBool, S: mkAnd(nn, app(o, l.S, r.S)), Sort: "Bool"}
+		}
 		return &Val{T: tBool, S: app(o, l.S, r.S), Sort: "Bool"}
 	case token.ADD:
 		if l.Sort == "String" {
@@ -550,8 +564,19 @@ func (c *FuncCtx) binop(st *State, op token.Token, l, r *Val, pos token.Pos, res
 		return res
 	case token.QUO:
 		if l.Sort == "Real" {
-			c.safe(st, "div0", pos, mkNot(mkEq(r.S, "0.0")), "division by zero")
-			return &Val{T: rt, S: app("/", l.S, r.S), Sort: "Real"}
+			// floating-point division never panics: x/0 is +Inf, -Inf or NaN.
+			// Floats are modelled as reals (assumption: operands small enough
+			// for float arithmetic to be exact); the infinities are values
+			// beyond every finite float32/float64, NaN is tracked in Val.NaN
+			if l.NaN != "" || r.NaN != "" {
+				limitf("%s: arithmetic on a possibly-NaN value is not modelled", c.eng.posStr(pos))
+			}
+			c.eng.declareUF("fdivzero", "(declare-fun fdivzero (Real) Real)")
+			z := app("fdivzero", l.S)
+			st.assume(mkImplies(app(">", l.S, "0.0"), app(">", z, floatInf)))
+			st.assume(mkImplies(app("<", l.S, "0.0"), app("<", z, "(- "+floatInf+")")))
+			isz := mkEq(r.S, "0.0")
+			return &Val{T: rt, S: mkIte(isz, z, app("/", l.S, r.S)), Sort: "Real", NaN: mkAnd(isz, mkEq(l.S, "0.0"))}
 		}
 		c.safe(st, "div0", pos, mkNot(mkEq(r.S, "0")), "division by zero")
 		// Go truncates toward zero
